@@ -249,6 +249,18 @@ pub fn corpus() -> Vec<Case> {
         k.extend([Enter, Up, Up, Enter]);
         v.push(Case { hist: vec![s(l2), s(l1)], keys: k });
     }
+    // word motions over characters that are alphanumeric without being ASCII digits or letters
+    // (fullwidth digit, superscript, vulgar fraction, Arabic-Indic digit, Roman numeral)
+    for w in ["print r２", "a２b ２", "x²y", "½a b½", "٣a", "aⅧ Ⅷ", "r２+２r"] {
+        for back in 1..=3 {
+            let mut k = keys_of(w);
+            for _ in 0..back {
+                k.push(CtrlLeft);
+            }
+            k.extend([Delete, Char('!'), CtrlRight, Char('?'), Enter]);
+            v.push(Case { hist: vec![], keys: k });
+        }
+    }
     // control characters are ignored
     v.push(Case { hist: vec![s("ab c")], keys: vec![Char('\u{1}'), Char('\u{7f}'), Char('\u{1f}'), Up, Char('\u{0}'), Char('\u{80}'), Enter] });
     v
@@ -462,7 +474,8 @@ pub fn run(o: &Opts) {
 /// Sessions typed into a pseudo-terminal (see `tty::debug_session`): lines of `echo @…` commands
 /// separated by `;`, edited with every key the editor knows, history recall, ended by `exit`.
 fn tty_case(r: &mut Rng) -> Case {
-    const WORDS: [&str; 8] = ["@a", "@b1", "@é", "@中x", "@12", "@a b", "@", "@ab  c"];
+    // (entries ending in blanks included: the history file must give them back as they were typed)
+    const WORDS: [&str; 12] = ["@a", "@b1", "@é", "@中x", "@12", "@a b", "@", "@ab  c", "@t ", "@u  ", "@v\t", "@２x"];
     const INS: [char; 8] = ['a', 'b', '1', 'é', ' ', ';', '@', '中'];
     let mut hist = Vec::new();
     for _ in 0..r.below(3) {
@@ -539,6 +552,17 @@ pub fn run_tty(o: &Opts) {
             keys.extend(keys_of("exit"));
             keys.push(Key::Enter);
             directed.push(Case { hist: vec![line], keys });
+        }
+    }
+    // history entries ending in blanks, recalled in a NEW process and completed by typing
+    if o.shard == 6 % o.nshards {
+        for h in ["echo ", "echo  ", "echo @x ", "echo\t"] {
+            let mut keys = vec![Key::Up];
+            keys.extend(keys_of("@z"));
+            keys.push(Key::Enter);
+            keys.extend(keys_of("exit"));
+            keys.push(Key::Enter);
+            directed.push(Case { hist: vec!["echo @first".to_string(), h.to_string()], keys });
         }
     }
     for c in directed {
